@@ -33,3 +33,18 @@ def degenerate_frames(inputs):
 
 def all_singletons_or_short(inputs):
     return degenerate_frames(inputs)
+
+
+def notes_confusable(inputs, onset_tol=0.05, pitch_tol=50.0):
+    """True when two *different* notes of the annotation are within the onset and pitch tolerances of each other, so that a
+    maximum matching of the annotation with its own copy need not be the identity pairing"""
+    iv, p = np.asarray(inputs['ref'][0], dtype=float), np.asarray(inputs['ref'][1], dtype=float)
+    kw = inputs.get('kw', {}) or {}
+    onset_tol = kw.get('onset_tolerance', onset_tol)
+    pitch_tol = kw.get('pitch_tolerance', pitch_tol)
+    n = len(p)
+    for i in range(n):
+        for j in range(n):
+            if i != j and abs(iv[i, 0] - iv[j, 0]) <= onset_tol + 1e-12 and abs(1200 * np.log2(p[i] / p[j])) <= pitch_tol + 1e-9:
+                return True
+    return False
